@@ -70,10 +70,13 @@ fn ktype_of<K: TestKey>() -> &'static str {
 /// interleaved and abandoned transactions, in-process reopen, async mode.
 fn build_case<K: TestKey>(p: &Params, id: u64) -> Case<K> {
     let mut rng = Rng::derive(p.seed ^ 0xC3A5, id);
-    let class_id = id % 8;
+    let class_id = id % 9;
     let (class, n_ops, sync): (&'static str, u64, bool) = match class_id {
         7 if p.mode == "kill" => ("cross-device-shards", 1000, true),
         7 => ("rollover", 2, true),
+        // one range removal over ~140 keys (reached by the thorough tier only: ~1500 kill points)
+        8 if p.mode == "kill" => ("wide-range", *rng.pick(&[50u64, 1000]), true),
+        8 => ("checkpoint-shared", 3, true),
         0 => ("rollover", *rng.pick(&[1u64, 2, 3]), true),
         1 => ("checkpoint-shared", *rng.pick(&[2u64, 3, 1000]), true),
         2 => ("large-record", *rng.pick(&[2u64, 3, 1000]), true),
@@ -118,6 +121,16 @@ fn build_case<K: TestKey>(p: &Params, id: u64) -> Case<K> {
         });
         ops.push(Op::Put { key: g.keys[1].clone(), content: g.contents[0], chunks: vec![] });
         ops.push(Op::Remove { key: long });
+        for op in &ops {
+            mr.step(op);
+        }
+    } else if class == "wide-range" {
+        let n = 132 + rng.usize(20);
+        for i in 0..n {
+            ops.push(Op::Put { key: K::bulk(i, 5), content: Content::new(40 + (i % 2) as u32, 9), chunks: vec![] });
+        }
+        ops.push(Op::RemoveRange { lo: std::ops::Bound::Unbounded, hi: std::ops::Bound::Unbounded });
+        ops.push(Op::Put { key: K::bulk(1, 5), content: Content::new(42, 12), chunks: vec![] });
         for op in &ops {
             mr.step(op);
         }
